@@ -338,7 +338,7 @@ class GeneInfo:
         gene_info.intron_property_map = None
 
         # additional info for canonical splice site detection
-        gene_info.all_read_region_start = gene_info.start
+        gene_info.all_read_region_start = max(1, gene_info.start)
         gene_info.all_read_region_end = gene_info.end
         gene_info.canonical_sites = {}
         gene_info.gene_regions = {}
@@ -686,8 +686,10 @@ class GeneInfo:
         return self.reference_region[left_pos:right_pos+1]
 
     def set_reference_sequence(self, start, end, chr_record):
-        self.all_read_region_start = start
-        self.all_read_region_end = end
+        # the sequence has to cover the reads and the annotated genes themselves (known isoforms are reported with all
+        # their introns); coordinates are 1-based, a read region may start at 0
+        self.all_read_region_start = max(1, min(start, self.start))
+        self.all_read_region_end = max(end, self.end)
         self.reference_region = \
             str(chr_record[self.all_read_region_start - 1:self.all_read_region_end])
         self.canonical_sites = {}
